@@ -84,7 +84,7 @@ static bool cycle_check(int desc, const Config &g, int b, std::string &err) {
     return true;
 }
 
-enum { S_CYCLE, S_CREATE_HOLD, S_USE_SHARED, S_DESTROY_HELD, S_QUERY_SHARED, S_QUERY_UNKNOWN, S_NOPS };
+enum { S_CYCLE, S_CREATE_HOLD, S_USE_SHARED, S_DESTROY_HELD, S_QUERY_SHARED, S_QUERY_UNKNOWN, S_FAILING_CREATE, S_NOPS };
 struct SOp { int op, a, b; };
 struct LiveRec { int desc; uint64_t t_create, t_destroy; };
 struct SWorker { int tid; std::vector<SOp> ops; std::string err; std::vector<LiveRec> lives; std::vector<std::pair<int, Config>> held; };
@@ -92,6 +92,16 @@ struct SharedInst { Config g; int desc; };
 static std::vector<SharedInst> *g_shared;
 static uint64_t g_clock;       // only one thread runs at a time
 
+// fault injection under the scheduler (C17 x C18): the flat-XOR back end's init is replaced, for the case's duration, by a
+// wrapper that fails for the thread that asked for it - after giving the scheduler a chance to run other threads while
+// the failing create is in the middle of the front end - and delegates for everybody else
+static thread_local bool t_fail_init = false;
+static void *(*g_real_xor_init)(void *, void *) = nullptr;
+static void *sched_xor_init(void *a, void *h) {
+    if (!t_fail_init) return g_real_xor_init(a, h);
+    yield_cb(90); yield_cb(91);          // two places at which control may change hands while init "runs"
+    return nullptr;
+}
 static void *sworker(void *p) {
     SWorker &w = *(SWorker *)p;
     Sched &s = *g_s;
@@ -124,6 +134,15 @@ static void *sworker(void *p) {
             if (g_shared->empty()) break;
             SharedInst &sh = (*g_shared)[o.a % g_shared->size()];
             std::string e; if (!cycle_check(sh.desc, sh.g, o.b, e)) w.err = "shared descriptor: " + e;
+            break;
+        }
+        case S_FAILING_CREATE: {
+            Config g; g.backend = ref::B_XOR; g.k = 3; g.m = 3; g.hd = 3; g.ct = CT_NONE;
+            t_fail_init = true;
+            int d = create(g);
+            t_fail_init = false;
+            if (d > 0) { w.err = "create succeeded although the back end's init failed"; liberasurecode_instance_destroy(d); }
+            else if (d == 0) w.err = "failed create returned 0";
             break;
         }
         case S_QUERY_UNKNOWN: {
@@ -176,6 +195,8 @@ static Result run_sched(const Case &c) {
     for (int t = 0; t < nt; t++) ws[t].tid = t;
     for (size_t i = 0; i + 3 < fl.size() + 0; i += 4) ws[fl[i] % nt].ops.push_back({fl[i + 1] % S_NOPS, fl[i + 2], fl[i + 3]});
     g_s = &s;
+    g_real_xor_init = flat_xor_hd_op_stubs.init;
+    flat_xor_hd_op_stubs.init = sched_xor_init;
     liberasurecode_verif_yield = yield_cb;
     std::vector<pthread_t> th(nt);
     for (int t = 0; t < nt; t++) pthread_create(&th[t], nullptr, sworker, &ws[t]);
@@ -183,6 +204,7 @@ static Result run_sched(const Case &c) {
     sem_wait(&s.done);
     for (int t = 0; t < nt; t++) pthread_join(th[t], nullptr);
     liberasurecode_verif_yield = nullptr;
+    flat_xor_hd_op_stubs.init = g_real_xor_init;
     g_s = nullptr;
     g_last_events = s.events;
     for (auto &w : ws) if (!w.err.empty()) r.fail("thread " + std::to_string(w.tid) + ": " + w.err);
@@ -209,6 +231,8 @@ static void base_workload(Case &c, int which) {
     case 0: c.set("threads", 2); c.setl("shared", {}); c.setl("ops", {0, S_CYCLE, 0, 1, 1, S_CYCLE, 4, 2}); break;                    // create RS ; use ; destroy  ||  same (first-ever RS)
     case 1: c.set("threads", 2); c.setl("shared", {1}); c.setl("ops", {0, S_CYCLE, 0, 1, 1, S_USE_SHARED, 0, 2, 1, S_QUERY_SHARED, 0, 0}); break;   // create/use/destroy || use shared
     case 2: c.set("threads", 2); c.setl("shared", {}); c.setl("ops", {0, S_CREATE_HOLD, 0, 1, 0, S_DESTROY_HELD, 0, 0, 1, S_CREATE_HOLD, 2, 1, 1, S_CYCLE, 4, 2, 1, S_DESTROY_HELD, 0, 0}); break;
+    case 6: c.set("threads", 2); c.setl("shared", {}); c.setl("ops", {0, S_FAILING_CREATE, 0, 0, 0, S_CYCLE, 2, 1, 1, S_CYCLE, 0, 2, 1, S_CYCLE, 2, 3}); break;      // a create whose init fails || create/use/destroy
+    case 7: c.set("threads", 2); c.setl("shared", {1}); c.setl("ops", {0, S_FAILING_CREATE, 0, 0, 1, S_CREATE_HOLD, 2, 1, 1, S_USE_SHARED, 0, 2, 1, S_DESTROY_HELD, 0, 0}); break;
     case 4: c.set("threads", 2); c.setl("shared", {}); c.setl("ops", {0, S_CYCLE, 0, 1, 1, S_QUERY_UNKNOWN, 0, 3, 1, S_QUERY_UNKNOWN, 0, 11}); break;        // create/use/destroy || queries on unknown descriptors
     case 5: c.set("threads", 2); c.setl("shared", {1}); c.setl("ops", {0, S_CREATE_HOLD, 2, 1, 0, S_DESTROY_HELD, 0, 0, 1, S_QUERY_UNKNOWN, 0, 5, 1, S_QUERY_UNKNOWN, 0, 2}); break;
     default: c.set("threads", 2); c.setl("shared", {2}); c.setl("ops", {0, S_CYCLE, 3, 1, 0, S_CYCLE, 0, 2, 1, S_CYCLE, 0, 3, 1, S_USE_SHARED, 0, 1}); break;
@@ -248,7 +272,7 @@ static Case gen_sched() {
     c.setv("shared", sh);
     std::vector<int> ops;
     int per = (int)pick(1, 4);
-    for (int t = 0; t < nt; t++) for (int j = 0; j < per; j++) { ops.push_back(t); ops.push_back(nshared ? weighted({5, 3, 3, 2, 1, 2}) : weighted({5, 3, 0, 2, 0, 2})); ops.push_back(coin(2, 3) ? (int)pick(0, 1) * 4 : (int)pick(0, 23)); ops.push_back((int)pick(0, 50)); }
+    for (int t = 0; t < nt; t++) for (int j = 0; j < per; j++) { ops.push_back(t); ops.push_back(nshared ? weighted({5, 3, 3, 2, 1, 2, 1}) : weighted({5, 3, 0, 2, 0, 2, 1})); ops.push_back(coin(2, 3) ? (int)pick(0, 1) * 4 : (int)pick(0, 23)); ops.push_back((int)pick(0, 50)); }
     c.setv("ops", ops);
     // PCT-like: mostly "stay", a few switch points at random depths
     int len = (int)pick(10, 400);
@@ -266,6 +290,8 @@ int main(int argc, char **argv) {
     h.prop = "C18";
     h.mode("c18_sched_exhaustive", sweep_sched, run_sched);
     h.mode("c08_sched", sweep_sched_c08, run_sched);
+    h.mode("c17_sched", [] { sweep_sched_range(6, 8); }, run_sched);          // failing back-end init while another thread creates and uses instances
+    h.mode("c14_sched", [] { sweep_sched_range(1, 4); }, run_sched);        // one thread's create/use/destroy against another's use of ITS instance (shared or own)
     h.mode("c18_sched", [] { rc_property("C18 controlled schedules", gen_sched, run_sched); }, run_sched);
     return harness_main(argc, argv, h);
 }
